@@ -93,7 +93,7 @@ pub fn check_doc(html: &[u8], w: usize, dec: &Dec, f: &Facts, cx: &mut Cx) {
         cx.violation(&class, || json!({"case": case_json(html, w, o), "base_cfg": base_cfg.short(), "base_result": format!("{base:?}"), "option_result": format!("{r:?}"),
             "as_unit_test": format!("#[test] fn c15_replay() {{ let a = {}.string_from_read(&{:?}[..], {}); let b = {}.string_from_read(&{:?}[..], {}); /* violated: {} */ }}", base_cfg.as_rust(), String::from_utf8_lossy(html), w, o.as_rust(), String::from_utf8_lossy(html), w, class)}));
     };
-    let mut run = |cx: &mut Cx, o: Opt| -> (Cfg, Out<String>) {
+    let run = |cx: &mut Cx, o: Opt| -> (Cfg, Out<String>) {
         let c = base_cfg.clone().with(o);
         let r = cx.render(html, w, &c);
         cx.state(1);
